@@ -24,7 +24,10 @@ from vlib import *
 
 PID = "C16"
 TYPES = ["WW", "CS", "LLW", "ATM", "ATS", "ADM", "OVA", "MMR", "RI"]
-S2Z = {"LLW", "ATM", "ATS", "ADM", "MMR"}
+S2Z = {"LLW", "ATM", "ATS", "ADM", "MMR"}          # sumToZero flag of CSvmTrainer::train (projection of the offsets)
+# weight vectors constrained to sum to zero (M is the centred Gram matrix of nu): the above + the reinforced machine, whose
+# M comes from setupMcParametersATMATS as well (Liu & Yuan's machine has the constraint; QpMcLinearReinforced agrees)
+S2ZW = S2Z | {"RI"}
 SIMPLEX = {"CS", "ATM", "ADM", "MMR"}
 # two classes: multi-class machine with C  ==  binary machine with C * BINC[type]   (derivation in the MANIFEST note)
 BINC = {"WW": 0.5, "CS": 0.5, "LLW": 0.5, "ADM": 0.5, "ATM": 0.5, "MMR": 0.5, "ATS": 1.0, "RI": 1.0, "OVA": 1.0}
@@ -85,9 +88,8 @@ def primal_kernel(t, k, K, y, A, b, C):
         F = [[Ka[i] + b0] for i in range(n)]
         ls = math.fsum(hinge(1 - (1 if y[i] else -1) * F[i][0]) for i in range(n))
         return reg + C * ls, reg, F
-    if t in S2Z:
-        A = centre_rows(A)
-        if b: b = [v - math.fsum(b) / len(b) for v in b]
+    if t in S2ZW: A = centre_rows(A)
+    if t in S2Z and b: b = [v - math.fsum(b) / len(b) for v in b]
     reg = 0.0; F = [[0.0] * k for _ in range(n)]
     for c in range(k):
         a = [r[c] for r in A]
@@ -103,7 +105,7 @@ def primal_linear(t, k, X, y, W, b, C):
         w = W[0]; reg = 0.5 * math.fsum(v * v for v in w); b0 = b[0] if b else 0.0
         F = [[math.fsum(u * v for u, v in zip(w, x)) + b0] for x in X]
         return reg + C * math.fsum(hinge(1 - (1 if y[i] else -1) * F[i][0]) for i in range(n)), reg, F
-    if t in S2Z:
+    if t in S2ZW:
         d = len(W[0]); m = [math.fsum(W[c][j] for c in range(k)) / k for j in range(d)]
         W = [[W[c][j] - m[j] for j in range(d)] for c in range(k)]
     reg = 0.5 * math.fsum(v * v for w in W for v in w)
@@ -118,8 +120,9 @@ def gen_data(rng, n, d, k, mode="int", empty_class=False):
     for _ in range(n):
         if mode == "int": X.append([float(rng.randint(-3, 3)) for _ in range(d)])
         elif mode == "dyadic": X.append([rng.randint(-12, 12) / 4.0 for _ in range(d)])
+        elif mode == "blobs": X.append(None)
         else: X.append([round(rng.gauss(0, 1.5), 3) for _ in range(d)])
-    if n >= 4 and rng.random() < 0.3:
+    if mode != "blobs" and n >= 4 and rng.random() < 0.3:
         for _ in range(rng.randint(1, max(1, n // 5))):
             X[rng.randrange(n)] = list(X[rng.randrange(n)])           # duplicates, possibly with another label
     y = [i % k for i in range(n)]
@@ -131,6 +134,9 @@ def gen_data(rng, n, d, k, mode="int", empty_class=False):
     for c in range(k):                                                   # re-check after the repair above
         if c not in y:
             return gen_data(rng, n, d, k, mode, empty_class)
+    if mode == "blobs":                                                  # class-wise clusters on an integer grid: mostly separable
+        cen = [[rng.randint(-3, 3) for _ in range(d)] for _ in range(k)]
+        X = [[float(cen[y[i]][j] + rng.choice([-1, 0, 0, 1])) for j in range(d)] for i in range(n)]
     return X, y
 
 def data_tokens(c, perm=None):
@@ -170,6 +176,22 @@ def gen_variants(rng, n, big):
         vs.append({"shrink": 1, "pre": 0, "cache": 2 * n, "ctype": "f", "perm": p2, "what": "permutation+float-cache+shrinking"})
     return vs
 
+def gen_stress(rng, gid, big, typ=None):
+    """offset / shrinking stress: separable-ish integer data, large C, every variant shrinks, two permutations"""
+    k = rng.choice([3, 3, 4]); n = rng.randint(7, 12 if not big else 16); d = rng.randint(2, 3)
+    t = typ or rng.choice([x for x in TYPES if x != "OVA"])
+    c = {"id": gid, "kind": "mc", "type": t, "n": n, "d": d, "k": k, "kernel": rng.choice(["lin", "lin", "rbf"]), "hard": 0, "maxiter": 200000}
+    c["gamma"] = rng.choice([0.125, 0.5]) if c["kernel"] == "rbf" else 0.0
+    c["x"], c["y"] = gen_data(rng, n, d, k, rng.choice(["blobs", "int"]))
+    c["C"] = rng.choice([1.0, 10.0, 10.0, 100.0]); c["eps"] = 1e-3; c["bias"] = rng.randint(0, 1)
+    c["probes"] = [list(x) for x in c["x"][:4]] + [[rng.randint(-8, 8) / 2.0 for _ in range(d)] for _ in range(2)]
+    vs = [dict(BASE), {"shrink": 1, "pre": 1, "cache": 100000, "ctype": "d", "what": "shrinking"}]
+    for j in range(3):
+        p = list(range(n)); rng.shuffle(p)
+        vs.append({"shrink": 1, "pre": rng.randint(0, 1), "cache": rng.choice([2 * n, n * n, 100000]), "ctype": "d", "perm": p, "what": "permutation"})
+    c["variants"] = vs; c["seed"] = rng.randint(1, 10 ** 6)
+    return c
+
 def gen_group(rng, gid, kind, big, typ=None, hard=False):
     k = 2 if kind == "bin2" else rng.choice([3, 3, 3, 4, 4, 5])
     if kind == "lin" and rng.random() < 0.25: k = 2
@@ -191,18 +213,34 @@ def gen_group(rng, gid, kind, big, typ=None, hard=False):
     c["variants"] = gen_variants(rng, n, big)
     c["seed"] = rng.randint(1, 10 ** 6)
     c["hard"] = int(hard)
+    c["maxiter"] = 200000
     return c
 
 # ------------------------------------------------------------------------------------------------
 # harness access
 
 class Runner:
-    def __init__(self, exe, tmpd):
-        self.exe = exe; self.tmpd = tmpd; self.numcache = {}; self.nruns = 0
+    def __init__(self, exe, tmpd, tl=8.0):
+        self.exe = exe; self.tmpd = tmpd; self.numcache = {}; self.nruns = 0; self.tl = tl; self.hangs = 0
     def run(self, groups_lines, tag):
-        """groups_lines: list of lists of command lines (one output line per command) -> list of (outputs, rc, err)"""
-        self.nruns += sum(len(g) for g in groups_lines)
-        return run_cases(self.exe, groups_lines, os.path.join(self.tmpd, tag + "_in.txt"), env=ENV1, timeout=1500)
+        """groups_lines: list of lists of command lines (one output line per command) -> list of (outputs, rc, err).
+        A run that does not come back within the time limit yields the output line 'HANG' (the group is re-run line by
+        line to find it), a crash 'CRASH rc'."""
+        res = []
+        for lines in groups_lines:
+            self.nruns += len(lines)
+            rc, out, err = run_lines(self.exe, lines, os.path.join(self.tmpd, tag + "_in.txt"), env=ENV1, timeout=self.tl * len(lines))
+            if rc == 0 and len(out) == len(lines):
+                res.append((out, 0, "")); continue
+            outs = []
+            for l in lines:
+                tl = self.tl if self.hangs < 6 else min(self.tl, 3.0)
+                rc1, o1, e1 = run_lines(self.exe, [l], os.path.join(self.tmpd, tag + "_one.txt"), env=ENV1, timeout=tl)
+                if rc1 == 0 and len(o1) == 1: outs.append(o1[0])
+                elif rc1 == -9: outs.append("HANG %s no result within %.0f s" % (l.split()[1], tl)); self.hangs += 1
+                else: outs.append("CRASH %s rc=%s %s" % (l.split()[1], rc1, e1.strip()[-200:].replace("\n", " ")))
+            res.append((outs, 0, ""))
+        return res
     def num(self, t, k, ctype):
         key = (t, k, ctype)
         if key not in self.numcache:
@@ -246,6 +284,38 @@ def parse_L(l):
     r["W"] = [w[i * d:(i + 1) * d] for i in range(rows)]
     r["B"] = [fh(v) for v in t[ib + 1:]]
     return r
+
+def fail_of(r, what, ctx=""):
+    """a run that produced no result line: hang / crash / exception -> (key, message)"""
+    l = r["exc"]
+    if l.startswith("HANG"): return ("no-termination:" + what, "%sthe run does not terminate: %s" % (ctx, l))
+    if l.startswith("CRASH"): return ("crash:" + what, "%sthe run crashed: %s" % (ctx, l))
+    return ("exception:" + what, "%sthe run threw: %s" % (ctx, l))
+
+def offset_search(t, k, y, G, b, C):
+    """certificate of non-optimal offsets: with the weight vectors fixed, look for offsets with a smaller loss (pattern search
+    over single coordinates and, for the sum-to-zero machines, pairs); returns the loss decrease C * (L(b) - L(b'))"""
+    n = len(y)
+    def L(bb):
+        return math.fsum(loss(t, k, y[i], [G[i][c] + bb[c] for c in range(k)]) for i in range(n))
+    cur = list(b); best = L(cur); start = best
+    step = 1.0
+    moves = []
+    for c in range(k):
+        if t in S2Z:
+            for c2 in range(k):
+                if c2 != c: moves.append((c, c2))
+        else: moves.append((c, None))
+    while step > 1e-5:
+        improved = False
+        for (c, c2) in moves:
+            for sg in (1.0, -1.0):
+                nb = list(cur); nb[c] += sg * step
+                if c2 is not None: nb[c2] -= sg * step
+                v = L(nb)
+                if v < best - 1e-15 * (abs(best) + 1): best = v; cur = nb; improved = True
+        if not improved: step *= 0.5
+    return C * (start - best), cur
 
 def unperm_rows(A, perm):
     if perm is None: return A
@@ -327,14 +397,14 @@ def check_mc(ck, R, c, stats):
     raw = None
     if t != "OVA":
         raw = parse_W(out[0]); o = 1
-        if "exc" in raw: return [("exception", "solveMc* threw: " + raw["exc"])]
+        if "exc" in raw: return [fail_of(raw, "base", "solveMc*: ")]
     for vi, v in enumerate(vs):
         r = parse_R(out[o + vi])
-        if "exc" in r: return [("exception:" + v.get("what", "base"), "train threw: " + r["exc"])]
+        if "exc" in r: return [fail_of(r, v.get("what", "base") + (":bias" if c["bias"] else ""), "train(): ")]
         r["A"] = unperm_rows(r["A"], v.get("perm")); r["v"] = v
         if len(r["A"]) != n or r["cols"] != k: return [("shape", "decision function has %d x %d coefficients for %d examples, %d classes" % (len(r["A"]), r["cols"], n, k))]
         P, reg, F = primal_kernel(t, k, K, c["y"], r["A"], r["B"], C)
-        r["P"] = P; r["reg"] = reg
+        r["P"] = P; r["reg"] = reg; r["Ftrain"] = F
         # the model's own evaluation on the probe points against the expansion evaluated here
         for pi in range(len(c["probes"])):
             for cc in range(k):
@@ -372,16 +442,32 @@ def check_mc(ck, R, c, stats):
                 if not abs(s) <= 1e-9 * C * n: bad.append(("constraints", "OVA machine %d with offset: sum of coefficients %r != 0" % (cc, s))); break
     if bad: return bad[:1]
     bound = gap_bound(c, k)
+    if c["bias"] and t != "OVA":
+        # offsets: a trained machine whose loss drops by more than the accuracy-implied amount when ONLY the offsets are moved
+        # (weights fixed) is certifiably not a solution within the solver accuracy
+        for r in runs:
+            v = r["v"]; what = v.get("what", "base")
+            if r["iters"] >= c.get("maxiter", 10 ** 18): continue
+            bb = r["B"]
+            if t in S2Z: bb = [x - math.fsum(bb) / k for x in bb]
+            G = [[r["Ftrain"][i][cc] - bb[cc] for cc in range(k)] for i in range(n)]
+            gain, nb = offset_search(t, k, c["y"], G, bb, C)
+            tolb = 4 * bound + fslack(c, r["P"], v["ctype"])
+            stats.setdefault("offset_ratio", []).append((gain / tolb, c["id"] + ":" + what))
+            if gain > tolb:
+                return [("offset-not-optimal:" + what, "offsets %s are not optimal: with the same weight vectors the offsets %s lower the primal objective from %r by %.6g (> %.3g implied by eps=%g)" % ([round(x, 5) for x in bb], [round(x, 5) for x in nb], r["P"], gain, tolb, c["eps"]))]
     rig = not c["bias"] or t == "OVA"      # Dlow bounds the optimum of the whole problem (OVA with offset: equality constraint checked)
     stats.setdefault("gap_ratio", []).append(((base["P"] - Dlow) / bound, c["id"]))
     for r in runs:
         v = r["v"]; what = v.get("what", "base")
         sl = fslack(c, r["P"], v["ctype"])
         g = r["P"] - Dlow
+        if r["stop"] == 4 or r["iters"] >= c.get("maxiter", 10 ** 18):
+            bad.append(("no-termination:" + what + (":bias" if c["bias"] else ""), "the solver ran into the iteration limit %d without reaching eps=%g (iterations %d, KKT violation %.3g)" % (c.get("maxiter", 0), c["eps"], r["iters"], r["acc"]))); continue
         if rig or r is base:
             if g < -sl:
                 bad.append(("weak-duality:" + what, "primal objective %r of the trained machine is below the dual bound %r (gap %.3g)" % (r["P"], Dlow, g))); continue
-            if r["stop"] != 2 and not g <= 1.5 * bound + sl:
+            if r["stop"] != 4 and not g <= 1.5 * bound + sl:
                 bad.append(("accuracy:" + what, "duality gap %.6g exceeds the bound %.6g implied by the stopping accuracy eps=%g (primal %r, dual bound %r, stop=%d, iterations=%d)" % (g, 1.5 * bound + sl, c["eps"], r["P"], Dlow, r["stop"], r["iters"]))); continue
         r["g"] = max(g, 0.0) + sl
     if bad: return bad[:1]
@@ -401,7 +487,7 @@ def check_mc(ck, R, c, stats):
         worst = 0.0
         for pi in range(len(c["probes"])):
             f1 = r["F"][pi]; f0 = base["F"][pi]
-            if t in S2Z:
+            if t in S2ZW and not (t == "RI" and c["bias"]):
                 f1 = [x - math.fsum(f1) / k for x in f1]; f0 = [x - math.fsum(f0) / k for x in f0]
             for cc in range(k):
                 dv = abs(f1[cc] - f0[cc]); tol = rad * math.sqrt(kpp[pi]) + 1e-9
@@ -436,7 +522,7 @@ def check_bin2(ck, R, c, stats):
         return [("crash", "implementation crashed/stopped after %d of %d runs (rc=%s) %s" % (len(out), len(lines), rc, err.strip()[-200:]))]
     K = kmat(c, c["x"]); Kp = kmat(c, c["probes"], c["x"]); kpp = [kern(c, p, p) for p in c["probes"]]
     rb = parse_R(out[-1])
-    if "exc" in rb: return [("exception", "binary train threw: " + rb["exc"])]
+    if "exc" in rb: return [fail_of(rb, "binary", "binary train(): ")]
     if rb["cols"] != 1: return [("shape", "binary machine has %d output columns" % rb["cols"])]
     Pb, regb, Fb = primal_kernel(t, 2, K, c["y"], rb["A"], rb["B"], Cb)
     Db, msg = binary_dual(K, c["y"], [r[0] for r in rb["A"]], Cb, rb["B"])
@@ -448,18 +534,18 @@ def check_bin2(ck, R, c, stats):
         s = math.fsum(r[0] for r in rb["A"])
         if not abs(s) <= 1e-9 * Cb * n: return [("constraints:binary", "sum of coefficients %r != 0 with offset" % s)]
     if gb < -fslack(c, Pb, "d"): return [("weak-duality:binary", "binary primal %r below its dual %r" % (Pb, Db))]
-    if rb["stop"] != 2 and not gb <= 1.5 * boundb + fslack(c, Pb, "d"):
+    if rb["stop"] != 4 and not gb <= 1.5 * boundb + fslack(c, Pb, "d"):
         return [("accuracy:binary", "binary machine: duality gap %.6g exceeds %.6g (eps=%g)" % (gb, 1.5 * boundb, c["eps"]))]
     gb = max(gb, 0.0) + fslack(c, Pb, "d")
     stats["runs"] = stats.get("runs", 0) + len(lines)
     if t == "OVA":
         r2 = parse_R(out[0])
-        if "exc" in r2: return [("exception", r2["exc"])]
+        if "exc" in r2: return [fail_of(r2, "binary")]
         return []
     nm = R.num(t, 2, "d")
     for oi, what in ((0, "base"), (1, "cache+shrinking")):
         raw = parse_W(out[oi])
-        if "exc" in raw: return [("exception:" + what, "solveMc* on two classes threw: " + raw["exc"])]
+        if "exc" in raw: return [fail_of(raw, what + (":bias" if c["bias"] else ""), "solveMc* on two classes: ")]
         msg = check_feasible(t, C, raw["alpha"])
         if msg: return [("constraints:" + what, "two-class run: " + msg)]
         A = raw_to_decision(t, 2, nm["nu"], c["y"], raw["alpha"])
@@ -470,7 +556,7 @@ def check_bin2(ck, R, c, stats):
         bound = gap_bound(c, 2)
         sl = fslack(c, Pm, "d")
         if gm < -sl: return [("weak-duality:" + what, "two-class %s: primal %r below dual %r" % (t, Pm, Dm))]
-        if not c["bias"] and raw["stop"] != 2 and not gm <= 1.5 * bound + sl:
+        if not c["bias"] and raw["stop"] != 4 and not gm <= 1.5 * bound + sl:
             return [("accuracy:" + what, "two-class %s: duality gap %.6g exceeds %.6g (eps=%g, iterations %d)" % (t, gm, 1.5 * bound + sl, c["eps"], raw["iters"]))]
         gm = max(gm, 0.0) + sl
         rad = math.sqrt(2 * gm) + math.sqrt(2 * gb)
@@ -505,7 +591,7 @@ def check_lin(ck, R, c, stats):
     res = []
     for oi in (0, 1):
         r = parse_R(out[oi])
-        if "exc" in r: return [("exception:kernel", r["exc"])]
+        if "exc" in r: return [fail_of(r, "kernel")]
         P, reg, F = primal_kernel(t, k, K, c["y"], r["A"], r["B"], C)
         res.append(("kernel" + ("+cache+shrinking" if oi else ""), P, reg, r))
     # dual bound
@@ -518,14 +604,14 @@ def check_lin(ck, R, c, stats):
             Dlow += Dc
     else:
         raw = parse_W(out[-1])
-        if "exc" in raw: return [("exception:raw", raw["exc"])]
+        if "exc" in raw: return [fail_of(raw, "base")]
         msg = check_feasible(t, C, raw["alpha"])
         if msg: return [("constraints", msg)]
         nm = R.num(t, k, "d")
         Dlow = dual_value(t, k, nm["nu"], c["y"], raw["alpha"], [], res[0][2])
     for oi in range(2, 5 if direct else 4):
         r = parse_L(out[oi])
-        if "exc" in r: return [("exception:linear", r["exc"])]
+        if "exc" in r: return [fail_of(r, "linear")]
         isdirect = (oi == 4)
         kk = k
         if r["rows"] not in (1, k): return [("shape:linear", "linear model has %d rows for %d classes" % (r["rows"], k))]
@@ -545,7 +631,7 @@ def check_lin(ck, R, c, stats):
         stats.setdefault("lin_ratio", []).append((g / bound, c["id"] + ":" + name))
         if g < -sl:
             bad.append(("weak-duality:" + name.split("(")[0], "primal objective %r of the %s solution is below the dual bound %r" % (P, name, Dlow))); break
-        if r["stop"] != 2 and not g <= 3 * bound + sl:
+        if r["stop"] != 4 and not g <= 3 * bound + sl:
             bad.append(("primal-objective:" + name.split("(")[0], "%s reaches primal objective %r, the kernel solver %r, dual bound %r: excess %.6g > %.6g implied by eps=%g (stop=%d, iterations=%d)" % (name, P, res[0][1], Dlow, g, 3 * bound + sl, c["eps"], r["stop"], r["iters"]))); break
         stats.setdefault("configs", set()).add((t, "lin", name.split("(")[0], k, r["iters"] >= 3))
     return bad[:1]
@@ -565,7 +651,7 @@ def gen_free(rng, big):
         if rng.random() < 0.15: return a, m * 1.5, b       # indefinite on purpose
         return a, m, b
     lines = []
-    N = 6000 if big else 1200
+    N = 20000 if big else 3000
     for _ in range(N):
         u = rng.random()
         if u < 0.15:
@@ -605,7 +691,7 @@ def monitor_free(case, out):
         if t[0] == "EDGE":
             a, g, Q, L, U = v
             if not (L <= r[0] <= U): msgs.append("EDGE: result %r outside [%r, %r]" % (r[0], L, U))
-            elif Q >= 1e-12 or Q == 0:
+            elif Q >= 0:
                 gn = lambda x: (x - a) * g - 0.5 * Q * (x - a) ** 2
                 best = max(gn(L), gn(U), gn(min(max(a + g / Q, L), U)) if Q > 0 else gn(L))
                 if not gn(r[0]) >= best - 1e-9 * (abs(best) + 1): msgs.append("EDGE: result %r has gain %r, a feasible point reaches %r" % (r[0], gn(r[0]), best))
@@ -644,7 +730,7 @@ def gen_steps(rng, sid, big):
     t = rng.choice([x for x in TYPES if x != "OVA"])
     k = rng.choice([2, 3, 3, 4, 5]); n = rng.randint(max(k + 1, 4), 9 if not big else 14); d = rng.randint(1, 2)
     c = {"id": sid, "type": t, "k": k, "n": n, "d": d, "kernel": rng.choice(["lin", "rbf"]), "C": rng.choice([0.25, 1.0, 1.0, 8.0, 100.0]),
-         "eps": rng.choice([1e-3, 1e-5]), "sp": rng.choice([0, 0, 2, 3, 7]), "nsteps": rng.choice([30, 60, 120]), "rand": rng.randint(0, 1),
+         "eps": rng.choice([1e-3, 1e-5]), "sp": rng.choice([0, 0, 2, 3, 7, -1]), "nsteps": rng.choice([30, 60, 120]), "rand": rng.randint(0, 1),
          "seed": rng.randint(1, 10 ** 6)}
     c["gamma"] = rng.choice([0.25, 1.0]) if c["kernel"] == "rbf" else 0.0
     c["x"], c["y"] = gen_data(rng, n, d, k, rng.choice(["int", "dyadic"]))
@@ -678,9 +764,9 @@ def spec_M(nm, t, k):
                 for pw in range(P):
                     b = nu[yw * P + pw]
                     want = math.fsum(x * z for x, z in zip(a, b))
-                    if nm["s2z"]: want -= math.fsum(a) * math.fsum(b) / k
+                    if t in S2ZW: want -= math.fsum(a) * math.fsum(b) / k
                     got = Mentry(nm, t, k, P, yv, pv, yw, pw)
-                    if not abs(got - want) <= 1e-12: bad.append("M(%d,%d,%d,%d)=%r but <nu,nu>%s = %r" % (yv, pv, yw, pw, got, " centred" if nm["s2z"] else "", want))
+                    if not abs(got - want) <= 1e-12: bad.append("M(%d,%d,%d,%d)=%r but <nu,nu>%s = %r" % (yv, pv, yw, pw, got, " centred" if t in S2ZW else "", want))
     return bad
 
 def parse_ST(t, n, P):
@@ -787,7 +873,7 @@ def main():
         ck.oblige("harness builds against /repo", False, err); ck.finish()
     tmpd = os.path.join(BUILD, "tmp", PID); os.makedirs(tmpd, exist_ok=True)
     big = ck.tier == "thorough"
-    R = Runner(exe, tmpd)
+    R = Runner(exe, tmpd, tl=(40.0 if big else 8.0))
     rng = ck.rng
 
     free_lines = []; step_cfgs = []; groups = []
@@ -807,17 +893,19 @@ def main():
                     if l.startswith("GROUP "): groups.append(json.loads(l[6:]))
                     elif l.startswith("STEPS "): step_cfgs.append(parse_steps_line(l))
                     elif l and l.split()[0] in ("EDGE", "BOX", "TRI", "GAIN", "LINE", "SPARSE"): free_lines.append(l)
-        for i in range(300 if big else 60): step_cfgs.append(gen_steps(rng, "s%d" % i, big))
+        for i in range(600 if big else 150): step_cfgs.append(gen_steps(rng, "s%d" % i, big))
         gi = 0
-        for rep in range(6 if big else 1):                 # every formulation in every stream
+        for rep in range(10 if big else 3):                 # every formulation in every stream
             for t in TYPES:
                 groups.append(gen_group(rng, "g%d" % gi, "mc", big, t)); gi += 1
                 groups.append(gen_group(rng, "g%d" % gi, "bin2", big, t)); gi += 1
                 groups.append(gen_group(rng, "g%d" % gi, "lin", big, t)); gi += 1
-        for i in range(60 if big else 9):
+        for i in range(150 if big else 40):
             groups.append(gen_group(rng, "g%d" % gi, rng.choice(["mc", "mc", "bin2", "lin"]), big)); gi += 1
-        for i in range(12 if big else 3):
+        for i in range(30 if big else 8):
             groups.append(gen_group(rng, "g%d" % gi, "mc", big, rng.choice(["WW", "CS", "ATS", "ADM", "LLW", "ATM"]), hard=True)); gi += 1
+        for i in range(400 if big else 80):
+            groups.append(gen_stress(rng, "g%d" % gi, big)); gi += 1
 
     # ---- 1. free functions
     nfree = 0
@@ -831,15 +919,19 @@ def main():
     # ---- 2. formulation matrices
     nnum = 0
     if not ck.replay or step_cfgs:
+        seen_fm = set()
         for t in [x for x in TYPES if x != "OVA"]:
             for k in (2, 3, 4, 5):
                 nm = R.num(t, k, "d"); nnum += 1
-                msgs = spec_M(nm, t, k)
-                if not nm["sorted"]: msgs.append("a row of M is not filled in increasing column order (the merge scans rely on it)")
-                if msgs:
-                    ck.violation("formulation-matrix:%s:%d" % (t, k), {"case": "NUM %s %d d" % (t, k), "observed": msgs[:3], "replay_cmd": "build/bin/std/c16_mc <(echo NUM %s %d d)" % (t, k)},
-                                 "setupMcParameters* for %s, %d classes: %s" % (t, k, msgs[0]))
-        ck.oblige("M == <nu,nu> (centred for sum-to-zero) and sorted rows for 8 formulations x 2..5 classes", not ck.violations)
+                found = [("entry", m) for m in spec_M(nm, t, k)[:1]]
+                if not nm["sorted"]: found.append(("unsorted-row", "a row of M is not filled in increasing column order (QpSparseArray::add requires it; the merge scans of selectWorkingSet/maxGainBox/maxGainSimplex read the row default instead of the entry)"))
+                for kind, m in found:
+                    if (kind, t) in seen_fm: continue
+                    seen_fm.add((kind, t))
+                    cf = ck.write_replay("num_%s_%d.txt" % (t, k), "NUM %s %d d\n" % (t, k))
+                    ck.violation("formulation-matrix:%s:%s" % (kind, t), {"case_file": cf, "case": "NUM %s %d d" % (t, k), "observed": m, "replay_cmd": "build/bin/std/c16_mc " + cf},
+                                 "setupMcParameters* for %s, %d classes: %s" % (t, k, m))
+        ck.oblige("M == <nu,nu> (centred for sum-to-zero) and sorted rows for 8 formulations x 2..5 classes", not seen_fm)
 
     # ---- 3. step-by-step runs
     nsteps = 0; step_runs = 0; dis_steps = []; mon_steps = 0; branch = {"one": 0, "triangle": 0, "box": 0}; shrunk_states = 0
@@ -965,7 +1057,7 @@ def main():
     def top(name):
         v = sorted(stats.get(name, []), reverse=True)[:3]
         return [(round(a, 4), b) for a, b in v]
-    ck.notes["worst_ratios(observed/allowed)"] = {k: top(k) for k in ("gap_ratio", "inv_ratio", "biasP_ratio", "bin2_ratio", "lin_ratio")}
+    ck.notes["worst_ratios(observed/allowed)"] = {k: top(k) for k in ("gap_ratio", "inv_ratio", "biasP_ratio", "offset_ratio", "bin2_ratio", "lin_ratio")}
     ck.notes["group_failures_by_key"] = bykey
     ck.notes["step_branches"] = branch; ck.notes["step_states_with_shrunk_variables"] = shrunk_states
     ck.notes["max_iterations_of_a_trainer_run"] = stats.get("max_iters", 0); ck.notes["shrinking_runs_over_1000_iterations"] = stats.get("shrink_long_runs", 0)
